@@ -3,7 +3,9 @@ package logger
 import (
 	"context"
 	"log/slog"
+	"runtime"
 	"strconv"
+	"time"
 )
 
 // C01.b — structure: derivation chains x attribute trees (keyed / inline / empty groups, LogValuer)
@@ -238,20 +240,41 @@ func H_C01b_inline() {
 	c01CheckLine(w, 1, "m", false, g.exp)
 }
 
-// levels, source on, symbolic message
+// the handlers show the caller's file by its last two path elements (directory/file.go); a shorter path is shown whole
+func c01ShortFile(file string) string {
+	n := 0
+	for i := len(file) - 1; i >= 0; i-- {
+		if file[i] == '/' {
+			n++
+			if n == 2 {
+				return file[i+1:]
+			}
+		}
+	}
+	return file
+}
+
+// levels, source on, symbolic message; source.file / source.line are the caller's (in the engine the pc resolves to
+// each of rtstubs.go's frameFiles in turn, natively to this file)
 func H_C01b_source() {
+	var pcs [1]uintptr
+	runtime.Callers(1, pcs[:])
+	f, _ := runtime.CallersFrames(pcs[:]).Next()
 	w := &c01Rec{}
 	lv := vxPick(5)
-	l := New(NewJsonHandler(w, NewOptions(LevelDebug, false, true)))
+	h := NewJsonHandler(w, NewOptions(LevelDebug, false, true))
 	msg := vxString(1)
 	g := &c01Gen{maxKids: 1}
-	var args []any
+	r := slog.NewRecord(time.Now(), c01Levels[lv], msg, pcs[0])
 	if vxPick(2) == 1 {
-		args = append(args, g.strLeaf(nil))
+		r.AddAttrs(g.strLeaf(nil))
 	}
-	l.Log(context.Background(), c01Levels[lv], msg, args...)
+	h.Handle(context.Background(), r)
 	vxReach("source enabled")
 	c01CheckLine(w, lv, msg, true, g.exp)
+	leaves, _ := specJSONLine(w.writes[0])
+	vxAssert(leaves[2].tok == string(specToValidUTF8(c01ShortFile(f.File))), "C01: source.file is not the caller's file")
+	vxAssert(leaves[3].tok == strconv.Itoa(f.Line), "C01: source.line is not the caller's line")
 }
 
 func H_C01b_vacuity() {
